@@ -1,7 +1,7 @@
 """C09 Ordering and selection filters keep exactly the interactions they promise."""
-import math, itertools, builtins
+import math, itertools, builtins, os
 from vf.run import obligation
-from symx import is_sym, SymInt, SymReal, And, Or
+from symx import is_sym, SymInt, SymReal, And, Or, ite
 
 import coba.random as cr
 import coba.pipes.filters as pf
@@ -68,10 +68,18 @@ class StubRandom(CobaRandom):
         self._seed = seed
         self._randu = self._stream()
         self._randg = self._next_gaussian()
+    max_zero = None      # optional bound on how many draws may be exactly 0.0 (code that re-draws on 0.0 would otherwise loop for ever on an arbitrary stream)
+    max_symbolic = None  # optional: draws beyond this many are the constant 1/2 (for code that pre-draws batches it never consumes)
     def _stream(self):
+        zeros = 0
         while True:
             i = next(StubRandom.counter)
+            if StubRandom.max_symbolic is not None and i >= StubRandom.max_symbolic:
+                yield 0.5; continue
             k = StubRandom.sym.int(f'u{i}', 0, M-1)
+            if StubRandom.max_zero is not None and hasattr(StubRandom.sym, 'branch'):
+                zeros = zeros + ite(k == 0, 1, 0)
+                StubRandom.sym.assume(zeros <= StubRandom.max_zero)
             yield k/M
 
 class stubbed:
@@ -297,9 +305,10 @@ def _pow(base, x):
     if not is_sym(base): return base**x
     from symx import EX
     if base == 0: return 0
+    if x == 1: return base
     k = next(_pow.counter)
     w = _pow.sym.real(f'pow{k}', 0, 1)
-    _pow.sym.assume(And(w >= base, w <= 1, w > 0))
+    _pow.sym.assume(And(w >= base, w <= 1, w > 0, Or(base >= 1, w < 1)))      # r <= r**x < 1 for 0 < r < 1, 0 < x <= 1
     return w
 
 def _classify_res(v):
@@ -308,9 +317,9 @@ def _classify_res(v):
         return "uniform-draw-exactly-0:Reservoir raises (log/ZeroDivision)"
     return v['what'][:90]
 
-@obligation('C09','reservoir', bounds={'quick':"N<=4 items; count in {None,0,1,2,3}, strict or not; arbitrary uniform stream; libm by contract",'thorough':"N<=5, count<=4"},
+@obligation('C09','reservoir', bounds={'quick':"N<=4 items (N<=3 for count 2 and 3); count in {None,0,1,2,3}, strict or not; arbitrary uniform stream of which at most one draw (two in the thorough tier) is exactly 0.0 (draws of a pre-drawn batch that cannot be consumed for N items are the constant 1/2); libm by contract",'thorough':"N<=5, count<=4"},
             functions=FUNCS, classify=_classify_res,
-            params=lambda tier: [dict(n=n, count=c, strict=s) for n in range(0, 5 if tier=='quick' else 6) for c in ([None,0,1,2,3] if tier=='quick' else [None,0,1,2,3,4]) for s in (False,True)],
+            params=lambda tier: [dict(n=n, count=c, strict=s) for n in range(0, 5 if tier=='quick' else 6) for c in ([None,0,1,2,3] if tier=='quick' else [None,0,1,2,3,4]) for s in (False,True) if not (tier == 'quick' and n == 4 and c in (2,3))],
             stubs=["uniform stream arbitrary", "math.log / ** by contract"], budget={'quick':80,'thorough':900})
 def reservoir(sym, n, count, strict):
     inp = make_interactions(sym, n, 'simulated', 'none')
@@ -323,10 +332,12 @@ def reservoir(sym, n, count, strict):
         if symbolic:
             pf.math = _MathStub(sym, n)
             SymReal.__pow__ = lambda self, x, m=None: _pow(self, x)
+        StubRandom.max_zero = 1 if os.environ.get('VERIF_TIER_EFFECTIVE','quick') == 'quick' else 2
+        StubRandom.max_symbolic = (count or 0) + 3*(n+1+StubRandom.max_zero)      # shuffle of the first `count` items, then one (r1,r2,r3) triple per replacement or skipped zero draw
         with stubbed(sym, [pf]):
             out = list(flt.filter(iter(inp)))
     finally:
-        pf.math = old_math; SymReal.__pow__ = old_pow
+        pf.math = old_math; SymReal.__pow__ = old_pow; StubRandom.max_zero = None; StubRandom.max_symbolic = None
     exp_len = n if count is None else (0 if (strict and n < count) else min(count, n))
     sym.check(len(out) == exp_len, f"Reservoir: {len(out)} items returned, promised {exp_len}")
     sym.check(len(set(ids(out))) == len(out) and set(ids(out)) <= set(range(n)), "Reservoir: items are not distinct input interactions")
